@@ -402,6 +402,16 @@ func GenPlan(prop string, seed uint64, tier string) *Plan {
 				Delay: pick(r, 0, time.Duration(r.Int63n(int64(3*time.Millisecond))), time.Duration(r.Int63n(int64(30*time.Millisecond))))})
 		}
 	}
+	if (churn || prop == "C09") && prop != "C07" && prop != "C08" && r.Chance(0.15) {
+		// pile-up at one node: it serves a join slowly (the request thread sits at its lock sites), starts to
+		// leave in the middle of it, and its successor changes at the same time (so that its periodic tasks
+		// have something to write)
+		nth := 1 + r.Intn(5)
+		p.Sched.SlowMethod, p.Sched.SlowProb, p.Sched.SlowMax = "RequestToJoin", pick(r, 0.3, 0.6), pick(r, 300*time.Millisecond, 2*time.Second)
+		p.Triggers = append(p.Triggers,
+			Trigger{OnMethod: "RequestToJoin", Nth: nth, Target: "callee", Kind: "leave", AtStart: true, Delay: time.Duration(r.Int63n(int64(time.Second)))},
+			Trigger{OnMethod: "RequestToJoin", Nth: nth, Target: "succ-of-callee", Kind: pick(r, "leave", "join-before"), AtStart: true, Delay: time.Duration(r.Int63n(int64(time.Second))), Spare: 1 + r.Uint64()%1000})
+	}
 	if churn && r.Chance(0.35) {
 		// two changes that meet at the wrap-around pair: the member with the largest identifier starts to leave
 		// while it serves a join, or while its predecessor is leaving through it
